@@ -117,6 +117,22 @@ func nop(m *Machine, fr *frame, args []Value) Value { return nil }
 
 var nativeTable map[string]nativeFn
 
+var anyType = types.NewInterfaceType(nil, nil)
+
+// syncMap returns the contents of the sync.Map at recv (created on first use).
+func (m *Machine) syncMap(recv Value) *Map {
+	p := recv.(*Value)
+	if m.syncMaps == nil {
+		m.syncMaps = map[*Value]*Map{}
+	}
+	mp := m.syncMaps[p]
+	if mp == nil {
+		mp = newMap()
+		m.syncMaps[p] = mp
+	}
+	return mp
+}
+
 func init() {
 	nativeTable = map[string]nativeFn{
 		// ---- runtime ----
@@ -253,6 +269,50 @@ func init() {
 			return m.call(fr, 0, newFn, nil)
 		},
 		"(*sync.Pool).Put":        nop,
+		// sync.Map as a plain map keyed by the receiver (no concurrency semantics beyond atomic steps)
+		"(*sync.Map).Load": func(m *Machine, fr *frame, a []Value) Value {
+			if e := m.mapFind(fr, m.syncMap(a[0]), anyType, a[1]); e != nil {
+				return Tuple{e.v, tTrue}
+			}
+			return Tuple{Iface{}, tFalse}
+		},
+		"(*sync.Map).Store": func(m *Machine, fr *frame, a []Value) Value {
+			m.mapInsert(fr, m.syncMap(a[0]), anyType, a[1], a[2])
+			return nil
+		},
+		"(*sync.Map).LoadOrStore": func(m *Machine, fr *frame, a []Value) Value {
+			mp := m.syncMap(a[0])
+			if e := m.mapFind(fr, mp, anyType, a[1]); e != nil {
+				return Tuple{e.v, tTrue}
+			}
+			m.mapInsert(fr, mp, anyType, a[1], a[2])
+			return Tuple{a[2], tFalse}
+		},
+		"(*sync.Map).LoadAndDelete": func(m *Machine, fr *frame, a []Value) Value {
+			mp := m.syncMap(a[0])
+			if e := m.mapFind(fr, mp, anyType, a[1]); e != nil {
+				v := e.v
+				m.mapDelete(fr, mp, anyType, a[1])
+				return Tuple{v, tTrue}
+			}
+			return Tuple{Iface{}, tFalse}
+		},
+		"(*sync.Map).Delete": func(m *Machine, fr *frame, a []Value) Value {
+			m.mapDelete(fr, m.syncMap(a[0]), anyType, a[1])
+			return nil
+		},
+		"(*sync.Map).Range": func(m *Machine, fr *frame, a []Value) Value {
+			mp := m.syncMap(a[0])
+			for _, e := range append([]*mapEntry(nil), mp.order...) {
+				if e.dead {
+					continue
+				}
+				if !m.branch(term(m.call(fr, 0, a[1], []Value{e.k, e.v}))) {
+					break
+				}
+			}
+			return nil
+		},
 		"(*sync.WaitGroup).Add":   func(m *Machine, fr *frame, a []Value) Value { m.wgAdd(fr, a[0], term(a[1])); return nil },
 		"(*sync.WaitGroup).Done":  func(m *Machine, fr *frame, a []Value) Value { m.wgAdd(fr, a[0], Const(64, ^uint64(0))); return nil },
 		"(*sync.WaitGroup).Wait":  func(m *Machine, fr *frame, a []Value) Value { m.wgWait(fr, a[0]); return nil },
@@ -365,6 +425,27 @@ func init() {
 		},
 		"runtime/pprof.Labels": func(m *Machine, fr *frame, a []Value) Value {
 			return m.zero(fr.fn.Signature.Results().At(0).Type())
+		},
+
+		// Iterator.clearForReuse zeroes the tail of the struct through a byte-array view
+		// (unsafe.Add + Offsetof): done field by field here
+		"(*github.com/cockroachdb/pebble.Iterator).clearForReuse": func(m *Machine, fr *frame, a []Value) Value {
+			st := fr.fn.Signature.Recv().Type().(*types.Pointer).Elem().Underlying().(*types.Struct)
+			p := a[0].(*Value)
+			cur := (*p).(Struct)
+			from := -1
+			for i := 0; i < st.NumFields(); i++ {
+				if st.Field(i).Name() == "clearForReuseBoundary" {
+					from = i
+				}
+			}
+			if from < 0 {
+				panic(engineErr{"Iterator.clearForReuseBoundary not found"})
+			}
+			for i := from; i < st.NumFields(); i++ {
+				cur[i] = m.zero(st.Field(i).Type())
+			}
+			return nil
 		},
 
 		// maps.clone (linknamed to the runtime): a shallow copy
